@@ -60,17 +60,21 @@ pub fn tree_parts(prop: &str, std: &Std) -> Vec<Part> {
             parts.push(Part::new(pools::eol_pool(sb.clone()), 1500, 18_391, sweep2.clone()));
             parts.push(Part::new(pools::eolblank_pool(sb.clone()), 1500, 31_770, sweep2.clone()));
             parts.push(Part::new(pools::uni_pool(sb.clone()), 1500, 21_240, sweep2.clone()));
+            parts.push(Part::new(crate::p_off::off2_pool(sb.clone()), 1500, 40_000, sweep2.clone()));
+            parts.push(Part::new(crate::p_off::off_pool(sb.clone()), 1500, 40_000, sweep2.clone()));
             gens(&mut parts, 600, 6000, &sweep2);
         }
         "C06" => {
             parts.push(Part::new(base(), usize::MAX, usize::MAX, sweep2.clone()));
             parts.push(Part::new(pools::comment_pool(sb.clone()), 14_000, usize::MAX, sweep2.clone()));
+            parts.push(Part::new(crate::p_off::off2_pool(sb.clone()), 6000, usize::MAX, sweep2.clone()));
             parts.push(Part::new(pools::eol_pool(sb.clone()), 1500, 18_391, sweep2.clone()));
             gens(&mut parts, 300, 3000, &sweep2);
         }
         "C08" => {
             parts.push(Part::new(base(), usize::MAX, usize::MAX, sweep.clone()));
             parts.push(Part::new(pools::eolblank_pool(sb.clone()), 3000, 31_770, sweep2.clone()));
+            parts.push(Part::new(pools::eol_pool(sb.clone()), 3000, usize::MAX, sweep2.clone()));
             parts.push(Part::new(pools::ws_pool(sb.clone()), 3000, 80_000, sweep2.clone()));
             parts.push(Part::new(pools::splice_pool(sb.clone(), std.frags.clone()), 3000, 72_678, sweep2.clone()));
             parts.push(Part::new(pools::comment_pool(sb.clone()), 3000, 60_000, sweep2.clone()));
@@ -196,6 +200,7 @@ pub fn triage(prop: &str, tier: Tier) {
     };
     let db = crate::findings::load();
     let mut keys: std::collections::BTreeMap<String, (u64, String)> = Default::default();
+    let mut key_repro: std::collections::BTreeMap<String, Value> = Default::default();
     let mut repairs: std::collections::BTreeMap<String, (u64, String)> = Default::default();
     let mut leftovers: Vec<Value> = vec![];
     let mut seen = std::collections::HashSet::new();
@@ -211,7 +216,7 @@ pub fn triage(prop: &str, tier: Tier) {
                 return (i, Some(id), vec![], vec![]);
             }
             let mut reps = vec![];
-            for name in ["eol_blank_in_literal", "cr_in_literal", "nonascii_eol_blank", "paren_literal_then_text", "table_columns_paren", "comment_only_content"] {
+            for name in ["eol_blank_in_literal", "cr_in_literal", "nonascii_eol_blank", "paren_literal_then_text", "comment_only_content", "explode_multi_stmt_blocks"] {
                 if let Some(r) = crate::classifiers::repair(name, &v.input) {
                     if r != v.input && violated(v, &r) == Some(false) {
                         reps.push(name.to_string());
@@ -236,17 +241,22 @@ pub fn triage(prop: &str, tier: Tier) {
         }
         if !ks.is_empty() {
             for k in ks {
-                let e = keys.entry(k).or_insert((0, eg.clone()));
+                let e = keys.entry(k.clone()).or_insert((0, eg.clone()));
                 e.0 += 1;
+                // keep the smallest full example per key as a reproducer
+                let better = key_repro.get(&k).map(|r| r["input"].as_str().map(|s| s.len()).unwrap_or(0) > v.input.len()).unwrap_or(true);
+                if better {
+                    key_repro.insert(k, json!({"property": v.property, "oracle": v.oracle, "input": v.input, "cfg": v.cfg.map(|c| c.json()), "extra": v.extra, "origin": v.origin, "detail": ""}));
+                }
             }
             continue;
         }
-        leftovers.push(json!({"sha": util::sha_hex(&v.input), "input": v.input, "cfg": v.cfg.map(|c| c.json()), "detail": util::clip(&v.detail, 300), "origin": v.origin, "oracle": v.oracle}));
+        leftovers.push(json!({"sha": util::sha_hex(&v.input), "input": v.input, "cfg": v.cfg.map(|c| c.json()), "detail": util::clip(&v.detail, 300), "origin": v.origin, "oracle": v.oracle, "extra": v.extra, "property": v.property}));
     }
     let out = json!({
         "property": prop,
         "already_known": known,
-        "comment_keys": keys.iter().map(|(k, v)| json!({"key": k, "n": v.0, "eg": v.1})).collect::<Vec<_>>(),
+        "comment_keys": keys.iter().map(|(k, v)| json!({"key": k, "n": v.0, "eg": v.1, "repro": key_repro.get(k)})).collect::<Vec<_>>(),
         "repairs": repairs.iter().map(|(k, v)| json!({"repair": k, "n": v.0, "eg": v.1})).collect::<Vec<_>>(),
         "leftovers": leftovers,
     });
